@@ -86,6 +86,39 @@ CHECKS["C16"] = dict(
     design="DESIGN.md §3 C16",
 )
 
+CHECKS["C15"] = dict(
+    level="exploration",
+    engine="direct",
+    technique="property-based testing (Hypothesis) against a pure-numpy reference model of fill/update; model-based generated operation histories (write / read / update / external file) on one pyramid directory with an invariant checked after every step",
+    text="All eight image modes x generated shapes, rectangle indexers (incl. reversed rows and the paired index arrays of the chunk sampler) and mask patterns for the buffer semantics; generated histories per (format, mode, naming scheme, explicit-vs-default format) for tile persistence, with independent decoders.",
+    note="Trusts the numpy model (40 lines) and numpy/astropy/PIL decoders. Partially-NaN colour pixels and negative integers are not generated (the statement leaves them open).",
+    design="DESIGN.md §3 C15",
+)
+CHECKS["C08"] = dict(
+    level="exploration",
+    engine="direct",
+    technique="exhaustive enumeration per axis (1..1300 quick / 1..4200 thorough x boundary sizes) + property-based testing (Hypothesis) against the closed-form RefStudy model; round trip tile -> independent decode -> re-assembly -> compare with the centred image",
+    text="Arithmetic layer exhaustively per axis to the bound, sub-images sampled to 5000 px, and the I/O layer (all modes, png/npy/fits, whole images and sub-images) read back with independent decoders.",
+    note="Trusts RefStudy (power-of-two square, floor-centred offsets) and the decoders; images > 1100 px are not written in the I/O part.",
+    design="DESIGN.md §3 C08",
+)
+CHECKS["C20"] = dict(
+    level="exploration",
+    engine="direct",
+    technique="property-based testing (Hypothesis) over generated multi-extension FITS collections and selectors, against a reference model of HDU / WCS-key resolution; differential across four routes (load, SimpleFitsCollection, argparse options, tile_fits plumbing)",
+    text="1-5 generated files with distinguishable HDUs and alternate WCS solutions x none/scalar/per-file selectors x routes: descriptions, images and export_simple all refer to the selected HDU and solution, in input order. Held on everything explored after the fix of the per-file index list.",
+    note="Selectors always name a valid image HDU / existing key.",
+    design="DESIGN.md §3 C20",
+)
+CHECKS["C18"] = dict(
+    level="fault_enumeration",
+    engine="direct",
+    technique="fault injection with exhaustive enumeration of every crash/failure point per generated case (before/mid/after each transfer, before/after rename; failure = OSError, crash = os._exit in a forked child) + Hypothesis-generated file sets, directory orders and fault sequences; oracle = store invariants after every run + completion after a clean re-run + refresh behaviour",
+    text="For each generated set of approved images and directory listing order every single fault point is enumerated in both modes, plus generated sequences of 1-3 faults; invariants are checked after every run against the real LocalPipelineIo store. Held on everything explored after the atomic-write fix.",
+    note="Crash granularity is the transfer boundary and half-way through a transfer's data; the Azure store is not exercised.",
+    design="DESIGN.md §3 C18",
+)
+
 NOT_APPLICABLE = {}
 
 
